@@ -1735,7 +1735,9 @@ def subset_to_blocks(
     # These rest is copied from dask.array.core.py with slight modifications
     index = tuple(slice(k, k + 1) if isinstance(k, Integral) else k for k in index)
 
-    name = "groupby-cohort-" + tokenize(array, index)
+    # two cohorts can select the same blocks (the index is an outer product over the axes):
+    # the reindexer distinguishes them
+    name = "groupby-cohort-" + tokenize(array, index, reindexer)
     new_keys = array._key_array[index]
 
     squeezed = tuple(np.squeeze(i) if isinstance(i, np.ndarray) else i for i in index)
